@@ -7,7 +7,7 @@
      0x0D and codes >= 0x7F only with l = 0; control codes never;
      identical character with equal or worse level: ignored;  otherwise the cell becomes (conv byte, l).
    write2 applies cell_after to two consecutive cells with the two bytes of a block. *)
-Require Import ObsRun Lemmas_TextProps.
+Require Import ObsRun Lemmas_TextProps Lemmas_ObsText.
 Local Open Scope Z_scope.
 
 (* type 0 (A and B): block D, PS thresholds / progressive flag, cells 2s and 2s+1 *)
@@ -61,6 +61,14 @@ Print Assumptions C06_weights.
 (* the model computes the level with the 8-bit arithmetic of the sources; no wrap for accepted errors *)
 Theorem C06_level_formula : forall eb e, 0 <= eb <= 2 -> 0 <= e <= 2 -> calc_error eb e = lvl eb e.
 Proof. exact calc_error_lvl. Qed.
+
+(* THE OBSERVER: every cell a group addresses holds afterwards exactly cell_after(thresholds and
+   progressive flag of that text, old cell or the empty cell after an A/B switch, byte, eB, e of the
+   carrying block), and every level is within 0..10 — at every step from every reachable state *)
+Theorem C06_observer : forall conv lut h s o ret, reach conv lut h s -> wf_op o ->
+  obs_C06 conv (o :: h) (snap_of s) (snap_of (fst (step conv lut s o))) (snd (step conv lut s o)) ret = true.
+Proof. exact obs_C06_holds. Qed.
+Print Assumptions C06_observer.
 
 Example C06_scenario : check_run_u (observer_u 6) scenario = true.
 Proof. vm_compute. reflexivity. Qed.
